@@ -40,7 +40,11 @@ type PEDigest struct {
 	markers    *peHeaderValues
 }
 
-const dosHeaderSize = 64
+const (
+	dosHeaderSize = 64
+	// upper bound on the number of page hashes to reserve memory for before reading the sections
+	maxPreallocPages = 16384
+)
 
 // Calculate a digest (message imprint) over a PE image. Returns a structure
 // that can be used to sign the imprint and produce a binary patch to apply the
@@ -125,11 +129,17 @@ func setupDigester(hash crypto.Hash, header []byte, hvals *peHeaderValues, secti
 	if doPageHash {
 		h.zeroPage = make([]byte, hvals.pageSize) // full page of zeroes, for padding
 		h.pageBuf = make([]byte, hvals.pageSize)  // scratch space
-		// make space for all the page hashes
+		// make space for all the page hashes. the section sizes have not been
+		// checked against the actual file yet, so limit how much is reserved
+		// up front and let append() take care of the rest.
 		pages := 2
 		for _, sh := range sections {
-			spage := (sh.SizeOfRawData + hvals.pageSize - 1) / hvals.pageSize
+			spage := (uint64(sh.SizeOfRawData) + uint64(hvals.pageSize) - 1) / uint64(hvals.pageSize)
 			pages += int(spage)
+			if pages > maxPreallocPages {
+				pages = maxPreallocPages
+				break
+			}
 		}
 		h.pageHashes = make([]byte, 0, pages*(4+hash.Size()))
 		// the first page is the headers padded out to a full page with the
